@@ -18,7 +18,7 @@ from vf.sim.scenario import Sim
 LEVEL = "exploration"
 RULE = ("matrix: api major {0,1,2,3,4,2^32-1} x minor {0,9,10,2^32-1} x API-hello name {equal, other, case-variant, prefix, unicode, empty} x "
         "noise-hello name {same set + absent} x invalid_password x login x password set/unset x expected name set/unset x framing x response "
-        "packaging {separate chunks, one chunk, split mid-frame, ConnectResponse before HelloResponse, HelloResponse twice}; quick rotates minor/"
+        "packaging {separate chunks, one chunk, split mid-frame, ConnectResponse before HelloResponse, HelloResponse twice, one chunk with a DisconnectRequest / garbage right behind the last answer}; quick rotates minor/"
         "password through the rows, thorough takes the full product. Non-trivial = connect() ran to an outcome that was judged; distinct = "
         "(row of the matrix abstracted to condition truth values, packaging, framing, outcome class)")
 ASSUMPTIONS = [
@@ -32,7 +32,7 @@ MIN_EVALS = {"quick": 2000, "thorough": 20000}
 EXPECTED = "livingroom"
 NAMES = {"equal": EXPECTED, "other": "kitchen", "case": "LivingRoom", "prefix": "livingroo", "unicode": "wohnzimmer-ü", "empty": ""}
 PSK = bytes(range(1, 33))
-PACKAGINGS = ("separate", "one-chunk", "split-mid-frame", "connect-before-hello", "hello-twice")
+PACKAGINGS = ("separate", "one-chunk", "split-mid-frame", "connect-before-hello", "hello-twice", "one-chunk+peer-disconnect", "one-chunk+garbage")
 MAJORS = (0, 1, 2, 3, 4, 2**32 - 1)
 MINORS = (0, 9, 10, 2**32 - 1)
 
@@ -57,6 +57,29 @@ def run_case(row: dict[str, Any]) -> dict[str, Any]:
             cfg.coalesce_replies = True
             if pk == "split-mid-frame":
                 cfg.coalesce_cuts = [5]
+        elif pk in ("one-chunk+peer-disconnect", "one-chunk+garbage"):
+            # the device hangs up right behind its last answer of the connect phase, in the same chunk: the close takes effect
+            # before the connecting task has looked at the answers
+            cfg.coalesce_replies = True
+
+            def hangup(c: DeviceConn) -> None:
+                if pk.endswith("peer-disconnect"):
+                    c.send("DisconnectRequest")
+                else:
+                    from vf import refcodec as _rc  # noqa: PLC0415
+
+                    c.send_raw(_rc.enc_noise_outer(bytes(range(40))) if noise else b"\x42\x13\x37")
+
+            def hello_h(c: DeviceConn, m: Any) -> None:
+                DeviceConn._h_HelloRequest(c, m)
+                if not login:
+                    hangup(c)
+
+            def connect_h(c: DeviceConn, m: Any) -> None:
+                DeviceConn._h_ConnectRequest(c, m)
+                hangup(c)
+
+            cfg.handlers = {"HelloRequest": hello_h, "ConnectRequest": connect_h}
         elif pk == "connect-before-hello":
             cfg.coalesce_replies = True
             state: dict[str, Any] = {}
@@ -123,6 +146,9 @@ def judge(row: dict[str, Any], o: dict[str, Any]) -> list[tuple[str, str]]:
     auth_ok = (not row["login"]) or (not row["invalid_password"])
     well_formed = row["packaging"] in ("separate", "one-chunk", "split-mid-frame") or \
         (row["packaging"] == "connect-before-hello" and not row["login"]) or (row["packaging"] == "hello-twice" and not row["login"])
+    hangup = "+" in row["packaging"]
+    if hangup:
+        well_formed = True   # the answers themselves are conformant; what follows them is a hang-up
     all_ok = compatible and (api_name_ok or api_name_unjudged) and noise_name_ok and auth_ok
     strict_ok = compatible and api_name_ok and noise_name_ok and auth_ok
     if o["outcome"] == "ok":
@@ -130,7 +156,7 @@ def judge(row: dict[str, Any], o: dict[str, Any]) -> list[tuple[str, str]]:
             why = [w for w, c in (("incompatible major", not compatible), ("API hello name mismatch", not (api_name_ok or api_name_unjudged)),
                                   ("noise hello name mismatch", not noise_name_ok), ("invalid password", not auth_ok)) if c]
             out.append((f"C06/accepted-despite/{'+'.join(w.split()[0] for w in why)}", f"connect() succeeded although: {', '.join(why)}"))
-        if o["state"] != "CONNECTED":
+        if o["state"] != "CONNECTED" and not hangup:   # (after a hang-up behind the answers the session may already be over again: C05/C07)
             out.append(("C06/success-but-not-connected", f"connect() returned but state is {o['state']}"))
         return out
     if o["outcome"] != "raised":
@@ -140,7 +166,7 @@ def judge(row: dict[str, Any], o: dict[str, Any]) -> list[tuple[str, str]]:
     if not isinstance(e, APIConnectionError):
         out.append((f"C06/raw-exception/{type(e).__name__}", f"connect() raised {e!r}"))
         return out
-    if strict_ok and well_formed:
+    if strict_ok and well_formed and not hangup:
         out.append((f"C06/rejected-conformant-device/{type(e).__name__}", f"all conditions hold but connect() raised {e!r}"))
     if o["state"] != "CLOSED":
         out.append(("C06/failed-but-not-closed", f"after failure state is {o['state']}"))
@@ -215,7 +241,7 @@ def shard(ctx: Ctx) -> None:
                 res.violation("C06/password-on-wire", f"ConnectRequest.password={pw!r}, configured {row['password']!r}", {"row": row})
         if o["decode_errors"]:
             res.violation("C06/client-bytes-undecodable", str(o["decode_errors"][:2]), {"row": row})
-        if o["outcome"] == "ok" and o["api_version"] != (row["major"], row["minor"]):
+        if o["outcome"] == "ok" and "+" not in row["packaging"] and o["api_version"] != (row["major"], row["minor"]):
             res.violation("C06/api-version-not-recorded", f"api_version {o['api_version']} after connecting to {row['major']}.{row['minor']}", {"row": row})
         for key, what in judge(row, o):
             res.violation(key, what, {"row": row}, trace=o["trace"])
